@@ -183,7 +183,7 @@ def rule_not_continued(rep, sv, name):
                 for at in atoms:
                     if at[0] == "cmp" and at[1] in ("<=", "<") and at[3] == TOL:
                         t = at[2]
-                        d = ctx.def_term(t) if t[0] == "var" and ctx.def_term(t) is not None else t
+                        d = ctx.def_term(t) if t[0] == "var" and ctx.def_term(t) is not None and not ctx.assigns.get(t[1]) else t    # (a local the loop re-assigns is not its initialiser)
                         nd = norm_def(d)
                         V = nd[0] if nd is not None else None
                         if V is not None and V[0] == "var" and ctx.def_term(V) is not None and not ctx.mutations.get(V) and not ctx.assigns.get(V[1]):
